@@ -33,6 +33,7 @@ MIN_REACH = {
     "points_selected": {"quick": 2500, "thorough": 60000},
     "df_rows_checked": {"quick": 400, "thorough": 5000},
     "calls_logged": {"quick": 3000, "thorough": 30000},
+    "second_runs_on_same_runner": {"quick": 15, "thorough": 300},
 }
 TIME_BUDGET = {"quick": 400, "thorough": 3400}
 
@@ -430,6 +431,27 @@ def run_case(ctx, case):
             if bad:
                 break
         ctx.count("points_selected", npts)
+    # the one-off constants of that run must not stick to the Runner: run it again without them
+    if runner is not None and run_constants and not bad:
+        try:
+            p0 = requested[0]
+            n0 = len(loglist)
+            with quiet():
+                if "combos" in entry:
+                    ds2 = runner.run_combos({a: [p0[a]] for a in swept}, verbosity=0)
+                else:
+                    ds2 = runner.run_cases([dict(p0)], verbosity=0)
+            ctx.count("second_runs_on_same_runner")
+            want2 = probe.canon({**p0, **resources, **stored_constants})
+            got2 = [r["k"] for r in loglist[n0:]]
+            if got2 != [want2]:
+                bad.append("a later run on the same Runner (without per-run constants) called the function with %s, expected %s: "
+                           "the constants given 'for this run only' stuck to the Runner" % (got2, want2))
+            for k, v in stored_constants.items():
+                if k not in const_dims and k not in ds2.dims and refmodel.deep_eq(refmodel._norm_attr(ds2.attrs.get(k)), v):
+                    bad.append("a later run records constant %s=%r, the Runner's stored value is %r" % (k, ds2.attrs.get(k), v))
+        except Exception as e:
+            bad.append("a second run on the same Runner raised %r" % (e,))
     for b in bad[:1]:
         ctx.violation(case, b, dict(sig0, oracle="ds-labelling"))
     ctx.observe(case, key=_key(case, axes), nontrivial=len(requested) >= 2,
